@@ -90,9 +90,11 @@ class NCVar:
 
     # preload ----------------------------------------------------------------
     def _load(self, arr):
+        if isinstance(arr, (list, tuple)):
+            arr = _to_obj(arr)
         a = _wrap(arr) if not isinstance(arr, rnp.ndarray) or arr.dtype != object else arr
         if not isinstance(a, rnp.ndarray):
-            self._cells[()] = a
+            self._cells[()] = _cast_elem(a, "f") if isinstance(a, float) else a
             return
         if a.dtype != object:
             a = SA(a).a
